@@ -359,8 +359,82 @@ def selfcheck():
     H.install_work_guard()
 
 
+def check_orphans(cls, rec):
+    """'w' replaces the WHOLE record - also when only patch containers of it are left (base lost)."""
+    d = H.new_scratch("vt-c03o-")
+    try:
+        p = os.path.join(d, "foo")
+        r = cls(p, "w")
+        r["old"] = 1
+        r.commit_patch()
+        r.create_patch()
+        r["old2"] = 2
+        r.close()
+        for f in list(os.listdir(d)):
+            if f == "foo.ih5" or f.startswith("foo.ih5mf"):
+                os.unlink(os.path.join(d, f))
+        case = dict(kind="orphans", cls=cls.__name__)
+        try:
+            r = cls(p, "w")
+            r["new"] = 5
+            r.commit_patch()
+            r.create_patch()
+            r["new2"] = 6
+            r.close()
+            r = cls(p, "r")
+            try:
+                v = _view(r)
+            finally:
+                r.close()
+        except Exception as e:  # noqa: BLE001
+            H.close_leaked_h5()
+            rec.fail("C03:w-over-orphan-patches-unusable", case, f"{type(e).__name__}: {str(e)[:200]} (files now: {sorted(os.listdir(d))})",
+                     "'w' replaces the whole record: create, patch, reopen work")
+            return
+        if v != {"/new": 5, "/new2": 6}:
+            rec.fail("C03:w-over-orphan-patches-wrong-view", case, v, {"/new": 5, "/new2": 6})
+        rec.case(nt_key=case, classes=["w_over_orphan_patches"], sample=case)
+    finally:
+        shutil.rmtree(d, ignore_errors=True)
+
+
+def check_names(cls, rec):
+    """Record names outside the documented alphabet are refused (they would collide with other records' files)."""
+    d = H.new_scratch("vt-c03n-")
+    try:
+        r = cls(os.path.join(d, "foo"), "w")
+        r["who"] = "foo"
+        r.close()
+        before = recutil.dir_digest(d)
+        for bad in ("foo\n", "fo o", "foo.p1", "foo.ih5", "foo*", "\nfoo"):
+            case = dict(kind="names", cls=cls.__name__, name=bad)
+            for mode in ("w", "a", "x"):
+                try:
+                    x = cls(os.path.join(d, bad), mode)
+                except Exception:  # noqa: BLE001
+                    H.close_leaked_h5()
+                    continue
+                x.close()
+                rec.fail("C03:invalid-record-name-accepted", dict(case, mode=mode), f"record name {bad!r} accepted in mode {mode}; files now "
+                         f"{sorted(os.listdir(d))}", "refused (name outside the documented alphabet)")
+                break
+            rec.case(nt_key=case, classes=["invalid_record_name"], sample=None)
+        try:
+            r = cls(os.path.join(d, "foo"), "r")
+            v = _view(r)
+            r.close()
+        except Exception as e:  # noqa: BLE001
+            H.close_leaked_h5()
+            rec.fail("C03:record-unopenable-after-refused-names", dict(kind="names", cls=cls.__name__), f"{type(e).__name__}: {e}", "opens")
+            return
+        if v != {"/who": "foo"}:
+            rec.fail("C03:record-changed-after-refused-names", dict(kind="names", cls=cls.__name__), v, {"/who": "foo"})
+    finally:
+        shutil.rmtree(d, ignore_errors=True)
+
+
 def plan(tier, seed):
-    sh = []
+    sh = [dict(name="names-orphans", kind="names")]
     for ci, cls in enumerate(["IH5Record", "IH5MFRecord"]):
         for s in SITUATIONS:
             sh.append(dict(name=f"matrix-{cls}-{s}", kind="matrix", cls=cls, situation=s))
@@ -376,6 +450,11 @@ def plan(tier, seed):
 
 def run_shard(shard, tier, seed, rec):
     H.install_work_guard()
+    if shard["kind"] == "names":
+        for cls in (H.IH5Record, H.IH5MFRecord):
+            check_names(cls, rec)
+            check_orphans(cls, rec)
+        return
     if shard["kind"] == "matrix":
         cls = H.IH5Record if shard["cls"] == "IH5Record" else H.IH5MFRecord
         s = shard["situation"]
@@ -420,6 +499,9 @@ def replay(rp, rec):
             finally:
                 shutil.rmtree(fx, ignore_errors=True)
             rec.case()
+        elif case.get("kind") in ("names", "orphans"):
+            cls = H.IH5Record if case["cls"] == "IH5Record" else H.IH5MFRecord
+            (check_names if case["kind"] == "names" else check_orphans)(cls, rec)
         else:
             run_history_case(case, rec, "thorough")
     except Violation as v:
